@@ -14,11 +14,16 @@
  *           raw  = same but size = len, i.e. the last input byte is the one the
  *                  library overwrites with NUL,
  *           file = set_xml / diff_load_xml
+ *           path = set_xml / diff_load_xml on the path written in the input file itself (missing files,
+ *                  directories, /proc files whose size is not known in advance, "-")
  *   tflags  topology flags (decimal)
  *   ud      option bits: low two bits 0 no userdata callback, 1 import callback set, 2 callback + HWLOC_XML_USERDATA_NOT_DECODED;
  *           bit 2 (4): every type filter KEEP_ALL (I/O and Misc objects are kept)
  *           bit 3 (8): the XML exports of the battery go through the built-in (nolibxml) exporter
  *                      (HWLOC_LIBXML_EXPORT=0; cached by the library on first use, hence per process), else libxml2
+ *           bit 5 (32): HWLOC_XML_VERBOSE=1 (the importer's diagnostics, which print document strings)
+ *           bit 6 (64): HWLOC_HIDE_ERRORS=0 (critical-error reports such as the out-of-order XML message)
+ *           bit 7 (128): the backend is selected through HWLOC_LIBXML instead of HWLOC_LIBXML_IMPORT/_EXPORT
  *           bit 4 (16): after a failed load the topology is re-configured with a valid XML buffer (with cpukinds,
  *                      memattr, distances) instead of a synthetic description
  * Every job runs in a forked child limited to HWV_WATCHDOG (default 5) seconds of CPU time (SIGXCPU = 24)
@@ -37,11 +42,19 @@
 #include <signal.h>
 #include <sys/wait.h>
 #include <sys/resource.h>
+#include <fcntl.h>
 #if defined(__SANITIZE_ADDRESS__)
 #include <sanitizer/lsan_interface.h>
 #define HWV_LEAKS() __lsan_do_recoverable_leak_check()
 #else
 #define HWV_LEAKS() 0
+#endif
+
+#ifdef HWV_COV
+extern void __gcov_dump(void);     /* coverage survey build: children leave through _exit, flush the counters first */
+#define HWV_COVDUMP() __gcov_dump()
+#else
+#define HWV_COVDUMP() ((void)0)
 #endif
 
 static void phase(const char *p) { printf("phase %s\n", p); fflush(stdout); }
@@ -266,7 +279,7 @@ static void battery(hwloc_topology_t t)
       pid_t pid; int st = 0;
       fflush(stdout);
       pid = fork();
-      if (!pid) { hwloc_topology_check(d); _exit(0); }
+      if (!pid) { hwloc_topology_check(d); HWV_COVDUMP(); _exit(0); }
       waitpid(pid, &st, 0);
       printf("dup-check %s\n", WIFEXITED(st) && WEXITSTATUS(st) == 0 ? "ok" : "abort");
       walk_count = 350;
@@ -293,9 +306,10 @@ static const char reload_xml[] =
 static int do_topo(const char *backend, const char *method, unsigned long tflags, int opts, const char *path)
 {
   hwloc_topology_t t = NULL; int rc; char *buf = NULL; size_t len = 0; int ud = opts & 3;
-  setenv("HWLOC_LIBXML_IMPORT", backend, 1);
-  setenv("HWLOC_LIBXML_EXPORT", (opts & 8) ? "0" : "1", 1);
-  unsetenv("HWLOC_LIBXML");
+  if (opts & 128) { setenv("HWLOC_LIBXML", backend, 1); unsetenv("HWLOC_LIBXML_IMPORT"); unsetenv("HWLOC_LIBXML_EXPORT"); }
+  else { setenv("HWLOC_LIBXML_IMPORT", backend, 1); setenv("HWLOC_LIBXML_EXPORT", (opts & 8) ? "0" : "1", 1); unsetenv("HWLOC_LIBXML"); }
+  if (opts & 32) setenv("HWLOC_XML_VERBOSE", "1", 1);
+  if (opts & 64) setenv("HWLOC_HIDE_ERRORS", "0", 1);
   if (ud == 2) setenv("HWLOC_XML_USERDATA_NOT_DECODED", "1", 1); else unsetenv("HWLOC_XML_USERDATA_NOT_DECODED");
   phase("init");
   rc = hwloc_topology_init(&t);
@@ -307,6 +321,13 @@ static int do_topo(const char *backend, const char *method, unsigned long tflags
   errno = 0;
   if (!strcmp(method, "file")) {
     rc = hwloc_topology_set_xml(t, path);
+  } else if (!strcmp(method, "path")) {
+    char *lit = read_file(path, &len);
+    if (!lit) { printf("cannot-read %s\n", path); hwloc_topology_destroy(t); return 2; }
+    lit[len] = 0; while (len && (lit[len-1] == '\n' || lit[len-1] == ' ')) lit[--len] = 0;
+    if (!strcmp(lit, "-")) { int fd = open("/dev/null", O_RDONLY); if (fd >= 0) { dup2(fd, 0); close(fd); } }
+    rc = hwloc_topology_set_xml(t, lit);
+    free(lit);
   } else {
     char *tmp = read_file(path, &len);
     if (!tmp) { printf("cannot-read %s\n", path); hwloc_topology_destroy(t); return 2; }
@@ -331,10 +352,16 @@ static int do_topo(const char *backend, const char *method, unsigned long tflags
     phase("dump");
     hwv_dump_topology(stdout, t, 0);
     printf("userdata-cb calls=%lu bytes=%lu\n", ud_calls, ud_bytes);
+    { /* topology-level infos (v2 root infos are moved here, missing Backend infos are added) */
+      struct hwloc_infos_s *ti = hwloc_topology_get_infos(t); unsigned k;
+      printf("tinfos %u", ti ? ti->count : 0);
+      for (k = 0; ti && k < ti->count && k < 64; k++) { putchar(' '); hwv_pstr(stdout, ti->array[k].name); putchar('='); hwv_pstr(stdout, ti->array[k].value); }
+      putchar('\n');
+    }
     phase("check");
     fflush(stdout);
     pid = fork();
-    if (!pid) { hwloc_topology_check(t); _exit(0); }
+    if (!pid) { hwloc_topology_check(t); HWV_COVDUMP(); _exit(0); }
     waitpid(pid, &st, 0);
     printf("check %s\n", WIFEXITED(st) && WEXITSTATUS(st) == 0 ? "ok" : "abort");
     battery(t);
@@ -363,7 +390,7 @@ static int do_topo(const char *backend, const char *method, unsigned long tflags
       }
       fflush(stdout);
       pid = fork();
-      if (!pid) { hwloc_topology_check(t); _exit(0); }
+      if (!pid) { hwloc_topology_check(t); HWV_COVDUMP(); _exit(0); }
       waitpid(pid, &st, 0);
       printf("reload-check %s\n", WIFEXITED(st) && WEXITSTATUS(st) == 0 ? "ok" : "abort");
     }
@@ -375,16 +402,24 @@ static int do_topo(const char *backend, const char *method, unsigned long tflags
   return 0;
 }
 
-static int do_diff(const char *backend, const char *method, const char *path)
+static int do_diff(const char *backend, const char *method, int opts, const char *path)
 {
   hwloc_topology_diff_t diff = NULL, d; char *refname = NULL; int rc; char *buf = NULL; size_t len = 0; unsigned n = 0;
   setenv("HWLOC_LIBXML_IMPORT", backend, 1);
   setenv("HWLOC_LIBXML_EXPORT", backend, 1);
   unsetenv("HWLOC_LIBXML");
+  if (opts & 128) { setenv("HWLOC_LIBXML", backend, 1); unsetenv("HWLOC_LIBXML_IMPORT"); unsetenv("HWLOC_LIBXML_EXPORT"); }
+  if (opts & 32) setenv("HWLOC_XML_VERBOSE", "1", 1);
   phase("diff-load");
   errno = 0;
   if (!strcmp(method, "file")) {
     rc = hwloc_topology_diff_load_xml(path, &diff, &refname);
+  } else if (!strcmp(method, "path")) {
+    char *lit = read_file(path, &len);
+    if (!lit) { printf("cannot-read %s\n", path); return 2; }
+    lit[len] = 0; while (len && (lit[len-1] == '\n' || lit[len-1] == ' ')) lit[--len] = 0;
+    rc = hwloc_topology_diff_load_xml(lit, &diff, &refname);
+    free(lit);
   } else {
     char *tmp = read_file(path, &len);
     if (!tmp) { printf("cannot-read %s\n", path); return 2; }
@@ -477,12 +512,13 @@ int main(void)
        * a generous wall-clock alarm catches a blocked (non-spinning) call */
       rl.rlim_cur = wd; rl.rlim_max = wd + 2; setrlimit(RLIMIT_CPU, &rl);
       alarm(12 * wd);
-      r = !strcmp(kind, "diff") ? do_diff(backend, method, path) : !strcmp(kind, "synth") ? do_synth(path) : do_topo(backend, method, tflags, ud, path);
+      r = !strcmp(kind, "diff") ? do_diff(backend, method, ud, path) : !strcmp(kind, "synth") ? do_synth(path) : do_topo(backend, method, tflags, ud, path);
       fflush(stdout);
       free(line); line = NULL;
       alarm(0); rl.rlim_cur = rl.rlim_max; setrlimit(RLIMIT_CPU, &rl);   /* the library is done: the leak check is not timed */
       /* leak check now, then _exit: exit() would seek the shared stdin back over the unread jobs */
       if (HWV_LEAKS()) r = 96;
+      HWV_COVDUMP();
       _exit(r);
     }
     waitpid(pid, &st, 0);
